@@ -539,16 +539,16 @@ Section PlansN.
 
   Lemma stepn_ci q q' : q_out q = [] ->
     scan_scrape s f screen (ci_range c (f_since f) (f_until f)) q = Ok q' ->
-    forall x, cqual x -> cov (q_out q') x.
+    Forall cqual (q_out q') /\ forall x, cqual x -> cov (q_out q') x.
   Proof.
     intros Hempty H. unfold ci_range, key_ci in H. destruct HAllc' as (_ & B1 & _).
     destruct (range_events s f screen HA (t_ci c) keys_ci 0 [] (f_since f) (f_until f) B1 shape_ci eq_refl Hsince Huntil) as (xs & E & N & D & W & C).
     cbn [app] in E, C.
-    destruct (scan_scrape_newest s f screen HA (t_range (t_ci c) (rev_time (f_until f) ++ zeros32) (rev_time (f_since f) ++ ffs32)) xs q q') as (_ & _ & _ & Q'); try assumption.
+    destruct (scan_scrape_newest s f screen HA (t_range (t_ci c) (rev_time (f_until f) ++ zeros32) (rev_time (f_since f) ++ ffs32)) xs q q') as (Hc' & _ & _ & Q'); try assumption.
     - rewrite Hempty. constructor.
     - rewrite Hempty. constructor.
     - rewrite Hempty. intros y z [].
-    - intros x Hqx. pose proof Hqx as [[off [Hi Hf]] [Hm Hs]].
+    - split; [exact Hc'|]. intros x Hqx. pose proof Hqx as [[off [Hi Hf]] [Hm Hs]].
       destruct (spec_facts f x Hm) as (_ & _ & _ & Hs1 & Hs2 & _).
       apply Q'; [|exact Hqx]. apply (C (key_ci (e_created x) (e_id x)) off x); [|exact Hf].
       eapply (range_complete L (t_i c) (t_ci c) keys_ci); eauto; [left; reflexivity| |]; unfold key_ci.
@@ -560,28 +560,29 @@ Section PlansN.
   Variables (allow_scraping : bool) (allow_limit : N) (allow_seconds : N).
 
   Theorem find_events_q_newest q' : find_events_q s f screen now allow_scraping allow_limit allow_seconds = Ok q' ->
-    forall x, cqual x -> cov (q_out q') x.
+    Forall clive (q_out q') /\ forall x, cqual x -> cov (q_out q') x.
   Proof.
+    assert (Hcl : forall l, Forall cqual l -> Forall clive l) by (intros l Hl; eapply Forall_impl; [|exact Hl]; intros a Ha; apply Ha).
     unfold find_events_q. set (q0 := mkQ [] false (f_since f)).
     assert (H0 : NI q0).
     { unfold DbQueryNewest.NI. cbn [q_out q_since q0]. refine (conj _ (conj _ (conj _ (conj Hsince (or_introl eq_refl))))); [constructor|constructor|lia]. }
     assert (H0c : CI s f q0) by (split; [constructor|reflexivity]).
     pose proof (proj1 (Forall_forall _ _) Hauth) as Hauth'. pose proof (proj1 (Forall_forall _ _) Hkinds) as Hkinds'.
     destruct (f_ids f) as [|i ids] eqn:Ei.
-    2:{ intros H. destruct (scan_ids_complete s f screen HA (i :: ids) q0 q' H0c H) as (_ & _ & Q').
-        intros x Hqx. left. apply Q'; [|exact Hqx].
+    2:{ intros H. destruct (scan_ids_complete s f screen HA (i :: ids) q0 q' H0c H) as (Cq & _ & Q').
+        split; [apply Cq|]. intros x Hqx. left. apply Q'; [|exact Hqx].
         destruct (spec_facts f x (proj1 (proj2 Hqx))) as ([E|E] & _); [rewrite Ei in E; discriminate|rewrite Ei in E; exact E]. }
     fold c.
     case_eq (f_authors f); [intros Ea|intros a au Ea]; (case_eq (f_kinds f); [intros Ek|intros kd ks Ek]);
       (case_eq (f_tags f); [intros Et|intros t ts Et]); rewrite Ea in Hauth'; rewrite Ek in Hkinds'.
-    - (* scrape *) destruct (negb _); [discriminate|]. intros H. apply (stepn_ci q0 q' eq_refl H).
+    - (* scrape *) destruct (negb _); [discriminate|]. intros H. destruct (stepn_ci q0 q' eq_refl H) as [A B]. split; [apply Hcl; exact A|exact B].
     - (* tags only *)
       destruct (tag_ranges f) as [rs| | |] eqn:Er; cbn [bind]; try discriminate. intros H.
       destruct (fold_res_newest s f screen _ rs (fun lv x => In lv (indexable_tags (e_tags x)))
-                  (fun q lv q1 _ Hq Hs => stepn_tc lv q q1 Hq Hs) q0 q' H0 H) as (_ & _ & Q').
-      intros x Hqx. destruct (first_constraint_range f Hletters x t ts rs Et Er (proj1 (proj2 Hqx))) as [lv [H1 H2]].
+                  (fun q lv q1 _ Hq Hs => stepn_tc lv q q1 Hq Hs) q0 q' H0 H) as (Cn & _ & Q').
+      split; [apply Hcl; apply Cn|]. intros x Hqx. destruct (first_constraint_range f Hletters x t ts rs Et Er (proj1 (proj2 Hqx))) as [lv [H1 H2]].
       eapply Q'; eauto.
-    - (* kinds only: scrape *) destruct (negb _); [discriminate|]. intros H. apply (stepn_ci q0 q' eq_refl H).
+    - (* kinds only: scrape *) destruct (negb _); [discriminate|]. intros H. destruct (stepn_ci q0 q' eq_refl H) as [A B]. split; [apply Hcl; exact A|exact B].
     - (* kinds + tags *)
       destruct (tag_ranges f) as [rs| | |] eqn:Er; cbn [bind]; try discriminate. intros H.
       destruct (fold_res_newest s f screen _ (kd :: ks) (fun k x => e_kind x = k)
@@ -590,14 +591,14 @@ Section PlansN.
                         (fun q2 lv q3 _ Hq2 Hs2 => stepn_ktc k lv q2 q3 Hq2 Hs2) q q1 Hq Hs in
                      conj C1 (conj M1 (fun x Hk Hqx =>
                        let '(ex_intro _ lv (conj H1 H2)) := first_constraint_range f Hletters x t ts rs Et Er (proj1 (proj2 Hqx)) in
-                       Q1 lv x H1 (conj Hk H2) Hqx))) q0 q' H0 H) as (_ & _ & Q').
-      intros x Hqx. destruct (spec_facts f x (proj1 (proj2 Hqx))) as (_ & _ & [E|E] & _); [rewrite Ek in E; discriminate|].
+                       Q1 lv x H1 (conj Hk H2) Hqx))) q0 q' H0 H) as (Cn & _ & Q').
+      split; [apply Hcl; apply Cn|]. intros x Hqx. destruct (spec_facts f x (proj1 (proj2 Hqx))) as (_ & _ & [E|E] & _); [rewrite Ek in E; discriminate|].
       rewrite Ek in E. eapply Q'; eauto.
     - (* authors only *)
       intros H.
       destruct (fold_res_newest s f screen _ (a :: au) (fun a0 x => e_pk x = a0)
-                  (fun q a0 q1 Hin Hq Hs => stepn_ac a0 q q1 (Hauth' a0 Hin) Hq Hs) q0 q' H0 H) as (_ & _ & Q').
-      intros x Hqx. destruct (spec_facts f x (proj1 (proj2 Hqx))) as (_ & [E|E] & _); [rewrite Ea in E; discriminate|].
+                  (fun q a0 q1 Hin Hq Hs => stepn_ac a0 q q1 (Hauth' a0 Hin) Hq Hs) q0 q' H0 H) as (Cn & _ & Q').
+      split; [apply Hcl; apply Cn|]. intros x Hqx. destruct (spec_facts f x (proj1 (proj2 Hqx))) as (_ & [E|E] & _); [rewrite Ea in E; discriminate|].
       rewrite Ea in E. eapply Q'; eauto.
     - (* authors + tags *)
       destruct (tag_ranges f) as [rs| | |] eqn:Er; cbn [bind]; try discriminate. intros H.
@@ -607,8 +608,8 @@ Section PlansN.
                         (fun q2 lv q3 _ Hq2 Hs2 => stepn_atc a0 lv q2 q3 (Hauth' a0 Hin) Hq2 Hs2) q q1 Hq Hs in
                      conj C1 (conj M1 (fun x Hk Hqx =>
                        let '(ex_intro _ lv (conj H1 H2)) := first_constraint_range f Hletters x t ts rs Et Er (proj1 (proj2 Hqx)) in
-                       Q1 lv x H1 (conj Hk H2) Hqx))) q0 q' H0 H) as (_ & _ & Q').
-      intros x Hqx. destruct (spec_facts f x (proj1 (proj2 Hqx))) as (_ & [E|E] & _); [rewrite Ea in E; discriminate|].
+                       Q1 lv x H1 (conj Hk H2) Hqx))) q0 q' H0 H) as (Cn & _ & Q').
+      split; [apply Hcl; apply Cn|]. intros x Hqx. destruct (spec_facts f x (proj1 (proj2 Hqx))) as (_ & [E|E] & _); [rewrite Ea in E; discriminate|].
       rewrite Ea in E. eapply Q'; eauto.
     - (* authors + kinds *)
       intros H.
@@ -616,8 +617,8 @@ Section PlansN.
                   (fun q a0 q1 Hin Hq Hs =>
                      let '(conj C1 (conj M1 Q1)) := fold_res_newest s f screen _ (kd :: ks) (fun k x => e_pk x = a0 /\ e_kind x = k)
                         (fun q2 k q3 Hink Hq2 Hs2 => stepn_akc a0 k q2 q3 (Hauth' a0 Hin) (Hkinds' k Hink) Hq2 Hs2) q q1 Hq Hs in
-                     conj C1 (conj M1 (fun x Hk Hqx => Q1 (e_kind x) x (proj2 Hk) (conj (proj1 Hk) eq_refl) Hqx))) q0 q' H0 H) as (_ & _ & Q').
-      intros x Hqx. destruct (spec_facts f x (proj1 (proj2 Hqx))) as (_ & [E|E] & [E2|E2] & _);
+                     conj C1 (conj M1 (fun x Hk Hqx => Q1 (e_kind x) x (proj2 Hk) (conj (proj1 Hk) eq_refl) Hqx))) q0 q' H0 H) as (Cn & _ & Q').
+      split; [apply Hcl; apply Cn|]. intros x Hqx. destruct (spec_facts f x (proj1 (proj2 Hqx))) as (_ & [E|E] & [E2|E2] & _);
         try (rewrite Ea in E; discriminate); try (rewrite Ek in E2; discriminate).
       rewrite Ea in E. rewrite Ek in E2. eapply Q'; eauto.
     - (* authors + kinds + tags *)
@@ -626,8 +627,8 @@ Section PlansN.
                   (fun q a0 q1 Hin Hq Hs =>
                      let '(conj C1 (conj M1 Q1)) := fold_res_newest s f screen _ (kd :: ks) (fun k x => e_pk x = a0 /\ e_kind x = k)
                         (fun q2 k q3 Hink Hq2 Hs2 => stepn_akc a0 k q2 q3 (Hauth' a0 Hin) (Hkinds' k Hink) Hq2 Hs2) q q1 Hq Hs in
-                     conj C1 (conj M1 (fun x Hk Hqx => Q1 (e_kind x) x (proj2 Hk) (conj (proj1 Hk) eq_refl) Hqx))) q0 q' H0 H) as (_ & _ & Q').
-      intros x Hqx. destruct (spec_facts f x (proj1 (proj2 Hqx))) as (_ & [E|E] & [E2|E2] & _);
+                     conj C1 (conj M1 (fun x Hk Hqx => Q1 (e_kind x) x (proj2 Hk) (conj (proj1 Hk) eq_refl) Hqx))) q0 q' H0 H) as (Cn & _ & Q').
+      split; [apply Hcl; apply Cn|]. intros x Hqx. destruct (spec_facts f x (proj1 (proj2 Hqx))) as (_ & [E|E] & [E2|E2] & _);
         try (rewrite Ea in E; discriminate); try (rewrite Ek in E2; discriminate).
       rewrite Ea in E. rewrite Ek in E2. eapply Q'; eauto.
   Qed.
@@ -644,7 +645,7 @@ Proof.
   destruct (find_events_q s f screen now allow_scraping allow_limit allow_seconds) as [q| | |] eqn:Eq; cbn [bind] in H; try discriminate.
   injection H as <- <-.
   pose proof (sort_desc_sorted (q_out q)) as Hsorted.
-  destruct (find_events_q_newest s f screen HA F1 F2 F3 F4 F5 now allow_scraping allow_limit allow_seconds q Eq x Hqx) as [Hin|Hdom].
+  destruct (proj2 (find_events_q_newest s f screen HA F1 F2 F3 F4 F5 now allow_scraping allow_limit allow_seconds q Eq) x Hqx) as [Hin|Hdom].
   - apply (beyond_top _ _ x Hsorted). apply sort_desc_In. exact Hin.
   - right. apply top_dominates; [exact Hsorted|]. rewrite <- (cge_perm _ _ _ (sort_desc_perm (q_out q))). exact Hdom.
 Qed.
@@ -660,4 +661,47 @@ Proof.
   apply (find_events_newest s f screen now allow_scraping allow_limit allow_seconds out red HA Hf H x).
   split; [|split; assumption]. destruct HA as (_ & Hid & _).
   destruct (by_id_entry s _ _ Hid Hl) as [off [Hi Hfnd]]. exists off. split; assumption.
+Qed.
+
+(* all access paths agree with the id index (C17): whichever index serves a filter, an event is in the (untruncated) answer
+   exactly when a lookup by its id returns it and it matches *)
+Corollary query_paths_agree_with_id_index ops names f now allow_scraping allow_limit allow_seconds out red :
+  ops_wfe ops -> let s := c_run ops (db_init names) in
+  filter_ok f -> limit_exceeds_store s f ->
+  find_events s f all_match now allow_scraping allow_limit allow_seconds = Ok (out, red) ->
+  forall e, In e out <-> (get_event_by_id s (e_id e) = Ok (Some e) /\ spec_matches f e = true).
+Proof.
+  intros Hops s Hf Hb H e.
+  rewrite (find_events_exact_reachable ops names f all_match now allow_scraping allow_limit allow_seconds out red Hops Hf Hb H e).
+  unfold all_match. split; [intros (A & B & _); split; assumption|intros (A & B); repeat split; assumption].
+Qed.
+
+(* an answer that cannot be truncated: the limit exceeds the number of retrievable events (given as any list of ids
+   that contains the id of every retrievable event) - then the answer is exactly the qualifying set, for every plan *)
+Theorem find_events_untruncated s f screen now allow_scraping allow_limit allow_seconds out red B :
+  StoreInv s -> filter_ok f -> (forall x, clive s x -> In (e_id x) B) -> len B < f_limit f ->
+  find_events s f screen now allow_scraping allow_limit allow_seconds = Ok (out, red) ->
+  forall x, In x out <-> cqual s f screen x.
+Proof.
+  intros HA (F1 & F2 & F3 & F4 & F5) HB Hlim H x. unfold find_events in H.
+  destruct (find_events_q s f screen now allow_scraping allow_limit allow_seconds) as [q| | |] eqn:Eq; cbn [bind] in H; try discriminate.
+  injection H as <- <-.
+  destruct (find_events_q_newest s f screen HA F1 F2 F3 F4 F5 now allow_scraping allow_limit allow_seconds q Eq) as [Hlive Hall].
+  destruct (find_events_q_inv s f screen now allow_scraping allow_limit allow_seconds q Eq) as [Hgood [Hnd _]].
+  assert (Hlen : len (q_out q) <= len B).
+  { assert (Hids : NoDup (map e_id (q_out q))).
+    { clear -Hnd Hlive HA. induction (q_out q) as [|a r IH]; cbn [map]; [constructor|].
+      inversion Hnd as [|? ? Hn Hr]; subst. inversion Hlive as [|? ? La Lr]; subst.
+      constructor; [|apply IH; assumption]. intros Hin. apply Hn. apply in_map_iff in Hin. destruct Hin as [b [Eb Hb]].
+      rewrite Forall_forall in Lr. assert (b = a) by (apply (live_unique s HA); [apply Lr; exact Hb|exact La|exact Eb]). subst b.
+      apply in_map_iff. exists a. split; [reflexivity|exact Hb]. }
+    assert (Hincl : incl (map e_id (q_out q)) B).
+    { intros id Hin. apply in_map_iff in Hin. destruct Hin as [a [<- Ha]]. rewrite Forall_forall in Hlive. apply HB. apply Hlive. exact Ha. }
+    pose proof (NoDup_incl_length Hids Hincl) as Hle. rewrite map_length in Hle. unfold len. lia. }
+  rewrite ltake_all by (pose proof (Permutation_length (sort_desc_perm (q_out q))); unfold len in *; lia).
+  rewrite sort_desc_In. split.
+  - intros Hin. rewrite Forall_forall in Hlive, Hgood. destruct (Hgood x Hin) as (_ & Hm & Hs).
+    split; [apply Hlive; exact Hin|split; assumption].
+  - intros Hqx. destruct (Hall x Hqx) as [Hin|Hdom]; [exact Hin|exfalso].
+    pose proof (cge_le_len (q_out q) (e_created x)). lia.
 Qed.
